@@ -432,8 +432,17 @@ func Run[H any](t *testing.T, rec *Rec, draw func(*rapid.T) H, exec func(h H, re
 		rec.Count("replays_rerun", 1)
 	}
 	// 3. generated search
+	inflight := os.Getenv("VERIF_INFLIGHT")
 	rapid.Check(t, func(rt *rapid.T) {
 		h := draw(rt)
+		if inflight != "" {
+			// the code under test may take the whole process down (fatal
+			// error, os.Exit): leave the case where the driver can find it
+			hb, _ := json.Marshal(h)
+			rp := Replay{Property: rec.ID, Unit: rec.Unit, Error: "the test process died while executing this case", History: hb}
+			b, _ := json.Marshal(rp)
+			os.WriteFile(inflight, b, 0o644)
+		}
 		if err := Catch(func() error { return exec(h, rec) }); err != nil {
 			if inc, ok := err.(*Unsettled); ok {
 				// the case could not be judged for a reason outside this
